@@ -580,6 +580,48 @@ def r14(ctx, rep):
     rep.borrowed(C01.r4, ctx, "C07.R14", "every column reference is reached by the RQ / PQ folders, so splits redirect it")
 
 
+def r15(ctx, rep):
+    rep.rule("C07.R15", "clauses are translated in the phase they belong to: WHERE / HAVING / GROUP BY / FROM / SELECT before the projection exists, ORDER BY after it", floor=4)
+    syn = ctx.syn
+    f = syn.fn("gen_query::translate_select_pipeline", crate="prqlc")
+    st = [show_stmts({"k": "block", "s": [x]}, maxdepth=16) for x in f["body"]["s"]]
+    lines = [x.get("l") for x in f["body"]["s"]]
+
+    # (a clause translated in a private helper of the same file counts at the statement that calls the helper)
+    file_fns = {h["name"]: h for h in syn.fns if h["crate"] == "prqlc" and h["file"] == f["file"] and "body" in h and h["path"] != f["path"]}
+    for i, x in enumerate(f["body"]["s"]):
+        for _ in range(2):
+            for c in walk(x):
+                if c.get("k") == "call" and last_seg(show(c["f"])) in file_fns and file_fns[last_seg(show(c["f"]))]["name"] not in ("translate_relation_expr", "translate_join", "translate_select_items",
+                                                                                                                                 "filter_of_conditions", "try_into_exprs", "translate_column_sort"):
+                    st[i] += " /*via " + last_seg(show(c["f"])) + "*/ " + show_stmts(file_fns[last_seg(show(c["f"]))]["body"], maxdepth=16)
+
+    def idx(pred):
+        return [i for i, t in enumerate(st) if pred(t)]
+    i_true = idx(lambda t: re.match(r"ctx\.query\.pre_projection = true;?$", t))
+    i_false = idx(lambda t: re.match(r"ctx\.query\.pre_projection = false;?$", t))
+    rep.check(len(i_true) == 1 and len(i_false) == 1 and i_true[0] < i_false[0], "phase-flag", f"expected `ctx.query.pre_projection = true` followed by `= false` as statements of translate_select_pipeline, found {i_true} / {i_false}",
+              file=f["file"], line=f["l"], fn=f["path"])
+    if len(i_true) != 1 or len(i_false) != 1:
+        return
+    lo, hi = i_true[0], i_false[0]
+    pre = {"FROM": "translate_relation_expr(", "JOIN": "translate_join(", "SELECT": "translate_select_items(", "WHERE/HAVING": "filter_of_conditions(", "GROUP BY": "try_into_exprs("}
+    for clause, call in pre.items():
+        where = idx(lambda t, call=call: call in t)
+        rep.check(bool(where) and all(lo < i < hi for i in where), f"phase:{clause}", f"{clause} is translated by `{call}..)` at statement(s) {[lines[i] for i in where]}; it must happen while `pre_projection` is true "
+                  f"(between lines {lines[lo]} and {lines[hi]}): translate_cid then names the underlying column or expression; outside that phase it emits the SELECT alias, which FROM/WHERE/GROUP BY cannot see",
+                  file=f["file"], line=lines[where[0]] if where else f["l"], fn=f["path"])
+    ob = idx(lambda t: "translate_column_sort(" in t)
+    rep.check(bool(ob) and all(i > hi for i in ob), "phase:ORDER BY", f"ORDER BY is translated at statement(s) {[lines[i] for i in ob]}; it must come after `pre_projection = false` (line {lines[hi]}): a sort key that is a "
+              "projected column is referred to by its output name (required with DISTINCT and in set operations)", file=f["file"], line=lines[ob[0]] if ob else f["l"], fn=f["path"])
+    # GROUP BY is the one clause where `*` may be disallowed: the flag is set for it and reset right after
+    i_set = idx(lambda t: re.match(r"ctx\.query\.allow_stars = ctx\.dialect\.stars_in_group\(\);?$", t))
+    i_reset = idx(lambda t: re.match(r"ctx\.query\.allow_stars = true;?$", t))
+    gb = idx(lambda t: "try_into_exprs(" in t)
+    rep.check(len(i_set) == 1 and len(i_reset) == 1 and bool(gb) and all(i_set[0] < i < i_reset[0] for i in gb), "stars-in-group", "`allow_stars` must be the dialect's stars_in_group() exactly while GROUP BY is translated "
+              "and true again afterwards", file=f["file"], line=f["l"], fn=f["path"])
+
+
 def run(ctx, rep):
-    for r in (r1, r2, r3, r4, r5, r6, r7, r8, r9, r10, r11, r12, r13, r14):
+    for r in (r1, r2, r3, r4, r5, r6, r7, r8, r9, r10, r11, r12, r13, r14, r15):
         rep.guard(r, ctx)
